@@ -302,6 +302,8 @@ fn format_type_info_internal(
     context: TypeInfoContext,
     shape: Shape,
 ) -> TypeInfo {
+    #[cfg(feature = "verif-hooks")]
+    crate::verif_hooks::tick();
     match type_info {
         TypeInfo::Array {
             braces,
